@@ -4,6 +4,8 @@ from __future__ import annotations
 
 import ast
 
+from sa.astutil import after_block, precedes  # statement order (never line numbers)
+
 from sa.astutil import arg_or_kw, call_name, calls_in, contains, enclosing_loop, enclosing_tests, expand, kw, local_defs, loops_in, names_in, raising_ifs, returns_of, stmt_calls, stores
 from sa.cfg import ends_in_raise
 from sa.index import AnalysisError, FuncInfo, ancestors, dotted, enclosing_stmt, norm, walk_local, walk_ordered
@@ -65,7 +67,7 @@ def r1_fresh_directory(ctx):
             why = "the handler changes the candidate name and retries" if okh else f"the handler changes {sorted(changed)} but the candidate path depends on {sorted(dep)} / does not retry"
         ctx.check(okh, f.qual + "#handler", why, where=f, node=hs[0] if hs else t)
         rets = [r for r in returns_of(f) if r.value is not None]
-        okr = bool(rets) and all(dotted(r.value) == dotted(m.func.value) and (any(r in ast.walk(ast.Module(body=t.orelse, type_ignores=[])) for _ in [0]) or r.lineno > t.end_lineno) for r in rets)
+        okr = bool(rets) and all(dotted(r.value) == dotted(m.func.value) and (any(r in ast.walk(ast.Module(body=t.orelse, type_ignores=[])) for _ in [0]) or after_block(f, t, r)) for r in rets)
         ctx.check(okr, f.qual + "#return", "returns the directory it just created" if okr else "can return a directory it did not create", where=f, node=rets[0] if rets else f.node)
     pre = [c for c in calls_in(f.node) if isinstance(c.func, ast.Attribute) and c.func.attr in ("exists", "is_dir")]
     ctx.check(not pre, f.qual + "#no-precheck", "no exists()-then-mkdir race" if not pre else "exists() pre-check before mkdir is racy", where=f, node=pre[0] if pre else f.node)
@@ -83,7 +85,7 @@ def r1_fresh_directory(ctx):
         ok = len(ts) == 1 and ts[0][1] and norm(expand(rm, ts[0][0])) in ("mode.outputs", "outputs")
         cn = [n for n in g.nodes if n.ast is not None and n.kind == "stmt" and contains(n.ast, cs[0])]
         first = [n for n in g.nodes if n.ast is not None and n.kind in ("stmt", "match") and any(contains(n.ast, r) for r in runs)]
-        ok = ok and all(n.line > cs[0].lineno for n in first)
+        ok = ok and all(precedes(rm, cs[0], n.ast) and not contains(n.ast, cs[0]) for n in first)
     ctx.check(ok, rm.qual + "#folder-first", "the output folder is created (whenever outputs are configured) before the mode runs" if ok else "a running mode can start before / without creating its output folder", where=rm, node=cs[0] if cs else rm.node)
 
 
@@ -174,7 +176,7 @@ def r3_attribution(ctx):
         ok = dotted(kw(c, "processor")) == "processor" and norm(kw(c, "folder")) == "outputs.current_output_folder" and norm(expand(f, kw(c, "filenames"))) == "outputs.build_filenames(filename_suffix=output_filename_suffix)"
         st = enclosing_stmt(c)
         runs = stmt_calls(f, ctx.R, {"pyxel.pipelines.processor:Processor.run_pipeline"})
-        ok = ok and runs and c.lineno > enclosing_loop(runs[0]).end_lineno
+        ok = ok and runs and after_block(f, enclosing_loop(runs[0]), c)
     ctx.check(ok, f.qual + "#save", "files are written after the last step, from the processor that ran, into the run's folder, under the run's suffix" if ok else "exposure output files are not written from the processor that ran / under the run's suffix", where=f, node=cs[0] if cs else f.node)
     sf = ctx.func(f"{OU}:save_to_files")
     lp = [l for l in loops_in(sf.node) if isinstance(l, ast.For) and enclosing_loop(l) is None and dotted(expand(sf, l.iter)) == "filenames"]
@@ -220,7 +222,7 @@ def r3_attribution(ctx):
     o = ctx.func("pyxel.observation.observation:Observation._run_single_pipeline")
     sv = [c for c in calls_in(o.node) if isinstance(c.func, ast.Attribute) and c.func.attr == "save_to_file"]
     runs = stmt_calls(o, ctx.R, {"pyxel.exposure.exposure:run_pipeline"})
-    ok = len(sv) == 1 and len(runs) == 1 and dotted(kw(sv[0], "processor")) == "new_processor" and norm(kw(sv[0], "run_number")) == f"{o.params[1]}.run_index" and sv[0].lineno > runs[0].lineno
+    ok = len(sv) == 1 and len(runs) == 1 and dotted(kw(sv[0], "processor")) == "new_processor" and norm(kw(sv[0], "run_number")) == f"{o.params[1]}.run_index" and precedes(o, runs[0], sv[0])
     if ok:
         st = enclosing_stmt(sv[0])
         ok = isinstance(st, ast.Assign) and norm(st.targets[0]).endswith("['/output']")
